@@ -220,3 +220,1144 @@ Proof.
     + intros x H. apply in_app_or in H. destruct H as [H|H]; auto.
     + intros x H. apply in_or_app. left. exact H.
 Qed.
+
+Lemma present_mono ov op ob d d' k : ext ov op ob d d' -> lookup k (vals d) <> None -> lookup k (vals d') <> None.
+Proof.
+  intros X H. destruct (lookup k (vals d)) as [v|] eqn:E; [|congruence].
+  rewrite (x_mono _ _ _ _ _ X _ _ E). discriminate.
+Qed.
+
+Lemma bind_inv r f d' res : bind r f = (d', res) ->
+  (exists e, r = (d', Some e) /\ res = Some e) \/ (exists d1, r = (d1, None) /\ f d1 = (d', res)).
+Proof.
+  destruct r as [d1 [e|]]; simpl; intro H.
+  - injection H as <- <-. left. exists e. split; reflexivity.
+  - right. exists d1. split; [reflexivity|exact H].
+Qed.
+
+(* values, with their clash ids, that an entry offers *)
+Definition offers_v (t : dtype) (e : entry) : list (key * val) :=
+  match t, e with
+  | DAtt, EAtt _ _ slot comm _ cid src tgt => [(K KAtt slot comm 0, V cid cid src tgt); (K KAtt slot 0 0, V cid cid src tgt)]
+  | DPro, EPro slot root cid => [(K KPro slot 0 0, V cid root 0 0)]
+  | DAgg, EAgg slot root comm cid => [(K KAgg slot root comm, V cid root 0 0)]
+  | DCon, ECon cs => map (fun c => let '(slot, sub, broot, cid) := c in (K KCon slot sub broot, V cid cid 0 0)) cs
+  | _, _ => []
+  end.
+Definition offers_b (t : dtype) (e : entry) : list (N * pkkey) :=
+  match t, e with
+  | DAtt, EAtt _ ds slot comm vidx _ _ _ => [(ds, (slot, comm, vidx)); (ds, (slot, 0, vidx))]
+  | _, _ => []
+  end.
+
+Lemma offers_map t e : offers t e = map (fun kv => (fst kv, v_cid (snd kv))) (offers_v t e).
+Proof.
+  destruct t, e; try reflexivity. simpl. rewrite map_map. apply map_ext.
+  intros [[[a b] c] d]. reflexivity.
+Qed.
+
+Definition entry_err (e : err) : bool :=
+  match e with
+  | EInvalid | EClashPK | EClashAtt | EClashSrc | EClashTgt | EClashPro | EClashAgg | EClashCon => true
+  | _ => false
+  end.
+
+Definition con_kv (c : N * N * N * N) : key * val :=
+  let '(slot, sub, broot, cid) := c in (K KCon slot sub broot, V cid cid 0 0).
+
+Lemma store_cons_spec cs : forall d d' r,
+  store_cons cs d = (d', r) ->
+  ext (map con_kv cs) [] [] d d' /\
+  (r = None -> forall k, In k (map fst (map con_kv cs)) -> lookup k (vals d') <> None) /\
+  (forall er, r = Some er -> er = EClashCon).
+Proof.
+  induction cs as [|[[[slot sub] broot] cid] cs IH]; intros d d' r H; simpl in H.
+  - unfold okr in H. injection H as <- <-. split; [apply ext_refl|]. split; [intros _ k []|discriminate].
+  - apply bind_inv in H. destruct H as [[e [H ->]]|[d1 [H1 H2]]].
+    + apply put_root_spec in H. destruct H as [X [_ Hr]].
+      destruct Hr as [-> Hr]; [discriminate|]. split; [apply ext_refl|]. split; [discriminate|].
+      intros er Her. congruence.
+    + apply put_root_spec in H1. destruct H1 as [X [Hp _]].
+      destruct (IH _ _ _ H2) as [X2 [Hp2 He2]]. split; [|split].
+      * eapply ext_trans.
+        -- eapply ext_weaken; [exact X| | |]; intros x Hx; simpl in *; tauto.
+        -- eapply ext_weaken; [exact X2| | |]; intros x Hx; simpl in *; tauto.
+      * intros Hr k Hk. simpl in Hk. destruct Hk as [<-|Hk].
+        -- eapply present_mono; [exact X2|]. apply Hp. reflexivity.
+        -- apply Hp2; assumption.
+      * exact He2.
+Qed.
+
+Lemma store_att_spec pk ds slot comm vidx cid src tgt d d' r :
+  store_att pk ds slot comm vidx cid src tgt d = (d', r) ->
+  let e := EAtt pk ds slot comm vidx cid src tgt in
+  ext (offers_v DAtt e) (offers_pk DAtt e) (offers_b DAtt e) d d' /\
+  (r = None -> forall k, In k (map fst (offers_v DAtt e)) -> lookup k (vals d') <> None) /\
+  (forall er, r = Some er -> entry_err er = true).
+Proof.
+  intros H e. unfold store_att in H.
+  assert (W : forall ov op ob a b, ext ov op ob a b ->
+            incl ov (offers_v DAtt e) -> incl op (offers_pk DAtt e) -> incl ob (offers_b DAtt e) ->
+            ext (offers_v DAtt e) (offers_pk DAtt e) (offers_b DAtt e) a b).
+  { intros. eapply ext_weaken; eassumption. }
+  assert (I1 : incl [(K KAtt slot comm 0, V cid cid src tgt)] (offers_v DAtt e)) by (intros x [<-|[]]; simpl; auto).
+  assert (I2 : incl [(K KAtt slot 0 0, V cid cid src tgt)] (offers_v DAtt e)) by (intros x [<-|[]]; simpl; auto).
+  assert (I3 : incl [((slot, comm, vidx), pk)] (offers_pk DAtt e)) by (intros x [<-|[]]; simpl; auto).
+  assert (I4 : incl [((slot, 0, vidx), pk)] (offers_pk DAtt e)) by (intros x [<-|[]]; simpl; auto).
+  assert (I5 : incl [(ds, (slot, comm, vidx))] (offers_b DAtt e)) by (intros x [<-|[]]; simpl; auto).
+  assert (I6 : incl [(ds, (slot, 0, vidx))] (offers_b DAtt e)) by (intros x [<-|[]]; simpl; auto).
+  assert (I0 : forall A (l : list A), incl [] l) by (intros A l x []).
+  apply bind_inv in H. destruct H as [[er [H ->]]|[d3 [H H4]]].
+  - (* failed in one of the first three *)
+    assert (X : ext (offers_v DAtt e) (offers_pk DAtt e) (offers_b DAtt e) d d' /\ entry_err er = true).
+    { apply bind_inv in H. destruct H as [[er' [H E]]|[d2 [H H3]]].
+      - injection E as <-. apply bind_inv in H. destruct H as [[er' [H E]]|[d1 [H H2]]].
+        + injection E as <-. apply put_pk_spec in H. destruct H as [X Hr].
+          destruct Hr as [-> Hr]; [discriminate|]. injection Hr as ->. split; [apply ext_refl|reflexivity].
+        + apply put_pk_spec in H. destruct H as [X1 _].
+          apply put_root_spec in H2. destruct H2 as [X2 [_ Hr]].
+          destruct Hr as [-> Hr]; [discriminate|]. injection Hr as ->.
+          split; [|reflexivity]. eapply W; [exact X1| | |]; auto.
+      - apply bind_inv in H. destruct H as [[er' [H E]]|[d1 [H H2]]]; [discriminate|].
+        apply put_pk_spec in H. destruct H as [X1 _].
+        apply put_root_spec in H2. destruct H2 as [X2 _].
+        apply put_pk_spec in H3. destruct H3 as [X3 Hr].
+        destruct Hr as [-> Hr]; [discriminate|]. injection Hr as ->.
+        split; [|reflexivity]. eapply ext_trans; [eapply W; [exact X1| | |]; auto|].
+        eapply W; [exact X2| | |]; auto. }
+    destruct X as [X Her]. split; [exact X|]. split; [discriminate|]. intros er0 E. injection E as <-. exact Her.
+  - apply bind_inv in H. destruct H as [[er' [H E]]|[d2 [H H3]]]; [discriminate|].
+    apply bind_inv in H. destruct H as [[er' [H E]]|[d1 [H H2]]]; [discriminate|].
+    apply put_pk_spec in H. destruct H as [X1 _].
+    apply put_root_spec in H2. destruct H2 as [X2 [P2 _]].
+    apply put_pk_spec in H3. destruct H3 as [X3 _].
+    apply put_att0_spec in H4. destruct H4 as [X4 [P4 Hr]].
+    assert (X12 : ext (offers_v DAtt e) (offers_pk DAtt e) (offers_b DAtt e) d d2).
+    { eapply ext_trans; [eapply W; [exact X1| | |]; auto|]. eapply W; [exact X2| | |]; auto. }
+    assert (X34 : ext (offers_v DAtt e) (offers_pk DAtt e) (offers_b DAtt e) d2 d').
+    { eapply ext_trans; [eapply W; [exact X3| | |]; auto|]. eapply W; [exact X4| | |]; auto. }
+    split; [eapply ext_trans; eassumption|]. split.
+    + intros -> k Hk. simpl in Hk. destruct Hk as [<-|[<-|[]]].
+      * eapply present_mono; [exact X34|]. apply P2. reflexivity.
+      * apply P4. reflexivity.
+    + intros er E. destruct Hr as [_ [Hr|Hr]]; [congruence| |]; rewrite Hr in E; injection E as <-; reflexivity.
+Qed.
+
+Lemma store_entry_spec t e d d' r :
+  store_entry false t e d = (d', r) ->
+  ext (offers_v t e) (offers_pk t e) (offers_b t e) d d' /\
+  (r = None -> forall k, In k (map fst (offers_v t e)) -> lookup k (vals d') <> None) /\
+  (forall er, r = Some er -> entry_err er = true).
+Proof.
+  assert (Inv : forall d d' r, (d, Some EInvalid) = (d', r) ->
+     ext (offers_v t e) (offers_pk t e) (offers_b t e) d d' /\
+     (r = None -> forall k, In k (map fst (offers_v t e)) -> lookup k (vals d') <> None) /\
+     (forall er, r = Some er -> entry_err er = true)).
+  { intros a b c H. injection H as <- <-. split; [apply ext_refl|]. split; [discriminate|].
+    intros er E. injection E as <-. reflexivity. }
+  destruct t, e; simpl; try (apply Inv).
+  - apply store_att_spec.
+  - intro H. apply put_root_spec in H. destruct H as [X [P Hr]]. split; [exact X|]. split.
+    + intros -> k [<-|[]]. apply P. reflexivity.
+    + intros er E. destruct Hr as [_ Hr]; [congruence|]. rewrite Hr in E. injection E as <-. reflexivity.
+  - intro H. apply put_agg_spec in H. destruct H as [X [P Hr]]. split; [exact X|]. split.
+    + intros -> k [<-|[]]. apply P. reflexivity.
+    + intros er E. destruct Hr as [_ Hr]; [congruence|]. rewrite Hr in E. injection E as <-. reflexivity.
+  - intro H. apply store_cons_spec in H. destruct H as [X [P Hr]]. split; [exact X|]. split; [exact P|].
+    intros er E. rewrite (Hr _ E). reflexivity.
+Qed.
+
+Lemma store_entries_spec t vis : forall d d' r,
+  store_entries false t vis d = Some (d', r) ->
+  ext (flat_map (offers_v t) vis) (flat_map (offers_pk t) vis) (flat_map (offers_b t) vis) d d' /\
+  (r = None -> forall k, In k (map fst (flat_map (offers_v t) vis)) -> lookup k (vals d') <> None) /\
+  (forall er, r = Some er -> entry_err er = true).
+Proof.
+  induction vis as [|e vis IH]; intros d d' r H; simpl in H.
+  - injection H as <- <-. split; [apply ext_refl|]. split; [intros _ k []|discriminate].
+  - destruct (store_entry false t e d) as [d1 [er|]] eqn:E.
+    + destruct vis; [|discriminate]. injection H as <- <-.
+      apply store_entry_spec in E. destruct E as [X [_ He]]. split; [|split; [discriminate|exact He]].
+      eapply ext_weaken; [exact X| | |]; intros x Hx; simpl; rewrite app_nil_r; exact Hx.
+    + apply store_entry_spec in E. destruct E as [X [P _]].
+      destruct (IH _ _ _ H) as [X2 [P2 He2]]. split; [|split; [|exact He2]].
+      * eapply ext_trans.
+        -- eapply ext_weaken; [exact X| | |]; intros x Hx; simpl; apply in_or_app; left; exact Hx.
+        -- eapply ext_weaken; [exact X2| | |]; intros x Hx; simpl; apply in_or_app; right; exact Hx.
+      * intros Hr k Hk. simpl in Hk. rewrite map_app in Hk. apply in_app_or in Hk. destruct Hk as [Hk|Hk].
+        -- eapply present_mono; [exact X2|]. apply P; [reflexivity|exact Hk].
+        -- apply P2; assumption.
+Qed.
+
+(* offered keys have the kind of the duty type *)
+Lemma offers_v_kind t e k v : In (k, v) (offers_v t e) -> kind_of_dt t = Some (k_kind k).
+Proof.
+  destruct t, e; simpl; try tauto.
+  - intros [H|[H|[]]]; injection H as <- _; reflexivity.
+  - intros [H|[]]; injection H as <- _; reflexivity.
+  - intros [H|[]]; injection H as <- _; reflexivity.
+  - intro H. apply in_map_iff in H. destruct H as [[[[a b] c] d] [H _]]. injection H as <- _. reflexivity.
+Qed.
+
+(* ... and, for a disciplined store, its slot *)
+Lemma offers_v_slot t e k v sl : entry_slots_ok sl e = true -> In (k, v) (offers_v t e) -> k_slot k = sl.
+Proof.
+  destruct t, e; simpl; try tauto.
+  - intros Hs [H|[H|[]]]; injection H as <- _; simpl; apply andb_true_iff in Hs; destruct Hs as [_ Hs]; apply N.eqb_eq; exact Hs.
+  - intros Hs [H|[]]; injection H as <- _; apply N.eqb_eq; exact Hs.
+  - intros Hs [H|[]]; injection H as <- _; apply N.eqb_eq; exact Hs.
+  - intros Hs H. apply in_map_iff in H. destruct H as [[[[a b] c] d] [H Hin]]. injection H as <- _. simpl.
+    rewrite forallb_forall in Hs. specialize (Hs _ Hin). simpl in Hs. apply N.eqb_eq. exact Hs.
+Qed.
+
+Lemma offers_b_slot t e b p sl : entry_slots_ok sl e = true -> In (b, p) (offers_b t e) -> b = sl /\ fst (fst p) = sl.
+Proof.
+  destruct t, e; simpl; try tauto.
+  intros Hs H. apply andb_true_iff in Hs. destruct Hs as [H1 H2]. apply N.eqb_eq in H1. apply N.eqb_eq in H2.
+  destruct H as [H|[H|[]]]; injection H as <- <-; simpl; split; congruence.
+Qed.
+
+(* ---------- resolve ---------- *)
+Lemma resolve_spec t m p : forall p' o', resolve t m p = (p', o') ->
+  (forall q k, In (q, k) p -> In (q, k) p' \/ exists c, In (q, k, c) o') /\
+  (forall q k, In (q, k) p' -> In (q, k) p /\ (k_kind k = t -> lookup k m = None)) /\
+  (forall q k c, In (q, k, c) o' -> In (q, k) p /\ k_kind k = t /\ exists v, lookup k m = Some v /\ c = v_cid v).
+Proof.
+  induction p as [|[q0 k0] r IH]; intros p' o' H; simpl in H.
+  - injection H as <- <-. repeat split; intros; try contradiction.
+  - destruct (resolve t m r) as [p1 o1]. destruct (IH _ _ eq_refl) as [A [B C]].
+    destruct (kind_eqb (k_kind k0) t) eqn:Ek.
+    + apply kind_eqb_eq in Ek. destruct (lookup k0 m) as [v|] eqn:El; injection H as <- <-.
+      * split; [|split].
+        -- intros q k [E|Hin]; [injection E as <- <-; right; exists (v_cid v); left; reflexivity|].
+           destruct (A _ _ Hin) as [|[c Hc]]; [left; assumption|right; exists c; right; exact Hc].
+        -- intros q k Hin. destruct (B _ _ Hin) as [H1 H2]. split; [right; exact H1|exact H2].
+        -- intros q k c [E|Hin].
+           ++ injection E as <- <- <-. split; [left; reflexivity|]. split; [exact Ek|]. exists v. split; [exact El|reflexivity].
+           ++ destruct (C _ _ _ Hin) as [H1 H2]. split; [right; exact H1|exact H2].
+      * split; [|split].
+        -- intros q k [E|Hin]; [injection E as <- <-; left; left; reflexivity|].
+           destruct (A _ _ Hin) as [|[c Hc]]; [left; right; assumption|right; exists c; exact Hc].
+        -- intros q k [E|Hin]; [injection E as <- <-; split; [left; reflexivity|intros _; exact El]|].
+           destruct (B _ _ Hin) as [H1 H2]. split; [right; exact H1|exact H2].
+        -- intros q k c Hin. destruct (C _ _ _ Hin) as [H1 H2]. split; [right; exact H1|exact H2].
+    + assert (Hne : k_kind k0 <> t) by (intro E; apply kind_eqb_eq in E; congruence).
+      injection H as <- <-. split; [|split].
+      * intros q k [E|Hin]; [injection E as <- <-; left; left; reflexivity|].
+        destruct (A _ _ Hin) as [|[c Hc]]; [left; right; assumption|right; exists c; exact Hc].
+      * intros q k [E|Hin]; [injection E as <- <-; split; [left; reflexivity|intros E; contradiction]|].
+        destruct (B _ _ Hin) as [H1 H2]. split; [right; exact H1|exact H2].
+      * intros q k c Hin. destruct (C _ _ _ Hin) as [H1 H2]. split; [right; exact H1|exact H2].
+Qed.
+
+(* ---------- deleteDutyUnsafe / drain ---------- *)
+Lemma delete_spec du d d' :
+  delete_duty du d = inl d' ->
+  (forall k v, lookup k (vals d') = Some v -> lookup k (vals d) = Some v) /\
+  (forall k p, lookup_pk k (pks d') = Some p -> lookup_pk k (pks d) = Some p) /\
+  (forall x, In x (abk d') -> In x (abk d)) /\
+  (forall k v, lookup k (vals d) = Some v -> lookup k (vals d') = None ->
+     (dt_of (k_kind k), k_slot k) = du \/
+     (fst du = DAtt /\ k_kind k = KAtt /\ exists p, In (snd du, p) (abk d) /\ k_slot k = fst (fst p))).
+Proof.
+  destruct du as [t s]. destruct t; simpl; intro H; try discriminate; injection H as <-; simpl.
+  - (* att *)
+    split; [|split; [|split]].
+    + intros k v. rewrite lookup_del. destruct (in_keys _ _); [discriminate|auto].
+    + intros k p. rewrite (lookup_pk_filter k (fun x => in_pks x (bucket s (abk d)))). destruct (in_pks _ _); [discriminate|auto].
+    + intros x Hx. apply filter_In in Hx. tauto.
+    + intros k v H1. rewrite lookup_del. destruct (in_keys k _) eqn:E; [|congruence]. intros _. right.
+      apply in_keys_In in E. apply in_map_iff in E. destruct E as [p [E Hp]].
+      unfold bucket in Hp. apply in_map_iff in Hp. destruct Hp as [[b p'] [E2 Hp]]. simpl in E2. subst p'.
+      apply filter_In in Hp. destruct Hp as [Hp Hb]. simpl in Hb. apply N.eqb_eq in Hb. subst b.
+      split; [reflexivity|]. destruct p as [[ps pc] pv]. simpl in E. subst k. split; [reflexivity|].
+      exists (ps, pc, pv). split; [exact Hp|reflexivity].
+  - (* pro *)
+    split; [|split; [|split]]; auto.
+    + intros k v. rewrite lookup_del. destruct (key_eqb _ _); [discriminate|auto].
+    + intros k v H1. rewrite lookup_del. destruct (key_eqb (K KPro s 0 0) k) eqn:E; [|congruence].
+      apply key_eqb_eq in E. subst k. intros _. left. reflexivity.
+  - split; [|split; [|split]]; auto.
+    + intros k v. rewrite lookup_del. destruct (kind_slot _ _ _); [discriminate|auto].
+    + intros k v H1. rewrite lookup_del. destruct (kind_slot KAgg s k) eqn:E; [|congruence].
+      unfold kind_slot in E. apply andb_true_iff in E. destruct E as [E1 E2].
+      apply kind_eqb_eq in E1. apply N.eqb_eq in E2. intros _. left. rewrite E1, E2. reflexivity.
+  - split; [|split; [|split]]; auto.
+    + intros k v. rewrite lookup_del. destruct (kind_slot _ _ _); [discriminate|auto].
+    + intros k v H1. rewrite lookup_del. destruct (kind_slot KCon s k) eqn:E; [|congruence].
+      unfold kind_slot in E. apply andb_true_iff in E. destruct E as [E1 E2].
+      apply kind_eqb_eq in E1. apply N.eqb_eq in E2. intros _. left. rewrite E1, E2. reflexivity.
+Qed.
+
+Lemma delete_err du d e : delete_duty du d = inr e -> e = EDeprecated \/ e = EUnknownType.
+Proof. destruct du as [t s]. destruct t; simpl; intro H; try discriminate; injection H as <-; auto. Qed.
+
+Lemma drain_spec q : forall d d2 q2 er,
+  drain q d = (d2, q2, er) ->
+  (forall k v, lookup k (vals d2) = Some v -> lookup k (vals d) = Some v) /\
+  (forall k p, lookup_pk k (pks d2) = Some p -> lookup_pk k (pks d) = Some p) /\
+  (forall x, In x (abk d2) -> In x (abk d)) /\
+  incl q2 q /\ (er = None -> q2 = []) /\
+  (forall e, er = Some e -> e = EDeprecated \/ e = EUnknownType) /\
+  (forall k v, lookup k (vals d) = Some v -> lookup k (vals d2) = None ->
+     In (dt_of (k_kind k), k_slot k) q \/
+     (k_kind k = KAtt /\ exists s p, In (DAtt, s) q /\ In (s, p) (abk d) /\ k_slot k = fst (fst p))).
+Proof.
+  induction q as [|du r IH]; intros d d2 q2 er H; simpl in H.
+  - injection H as <- <- <-. split; [auto|]. split; [auto|]. split; [auto|]. split; [intros x []|].
+    split; [reflexivity|]. split; [discriminate|]. intros k v H1 H2. congruence.
+  - destruct (delete_duty du d) as [d1|e] eqn:E.
+    + destruct (delete_spec _ _ _ E) as [A [B [C D]]].
+      destruct (IH _ _ _ _ H) as [A' [B' [C' [I [N [Er D']]]]]].
+      split; [auto|]. split; [auto|]. split; [auto|]. split; [intros x Hx; right; apply I; exact Hx|].
+      split; [exact N|]. split; [exact Er|].
+      intros k v H1 H2. destruct (lookup k (vals d1)) as [w|] eqn:Ew.
+      * destruct (D' k w Ew H2) as [Hd|[Hk [s [p [H3 [H4 H5]]]]]].
+        -- left. right. exact Hd.
+        -- right. split; [exact Hk|]. exists s, p. split; [right; exact H3|]. split; [apply C; exact H4|exact H5].
+      * destruct (D k v H1 Ew) as [Hd|[Hf [Hk [p [H3 H4]]]]].
+        -- left. left. symmetry. exact Hd.
+        -- right. split; [exact Hk|]. exists (snd du), p. split; [left; destruct du; simpl in *; congruence|].
+           split; assumption.
+    + injection H as <- <- <-. split; [auto|]. split; [auto|]. split; [auto|].
+      split; [intros x Hx; right; exact Hx|]. split; [discriminate|]. split.
+      * intros e0 E0. injection E0 as <-. eapply delete_err. exact E.
+      * intros k v H1 H2. congruence.
+Qed.
+
+Lemma drain_nil d : drain [] d = (d, [], None).
+Proof. reflexivity. Qed.
+
+(* ---------- the simulation invariant ---------- *)
+Definition Fmap := key -> option N.   (* proof-only ghost: the content first stored under a key *)
+
+Record InvU (F : Fmap) (s : state) (g : ghost) : Prop := {
+  u1 : forall k v, lookup k (vals (st_db s)) = Some v -> F k = Some (v_cid v);
+  u2 : forall q k c, In (q, k, c) (outbox s) -> F k = Some c;
+  u3 : forall k c, In (k, c) (g_ans g) -> F k = Some c;
+  u4 : forall k c, F k = Some c -> lookup k (vals (st_db s)) <> None \/ In (dt_of (k_kind k), k_slot k) (g_dead g);
+  u5 : forall b p, In (b, p) (abk (st_db s)) -> b = fst (fst p);
+  u6 : forall d, In d (expq s) -> In d (g_dead g)
+}.
+
+Record Inv (s : state) (g : ghost) : Prop := {
+  a1 : forall k v, lookup k (vals (st_db s)) = Some v -> In (k, v_cid v) (g_off g);
+  a2 : forall q k c, In (q, k, c) (outbox s) -> In (q, k) (g_pend g) /\ In (k, c) (g_off g);
+  a3 : forall q k, In (q, k) (g_pend g) -> In (q, k) (pend s) \/ exists c, In (q, k, c) (outbox s);
+  a3' : forall q k, In (q, k) (pend s) -> In (q, k) (g_pend g);
+  a4 : forall q, In q (g_must g) -> exists k c, In (q, k, c) (outbox s);
+  a5 : forall k, In k (g_prov g) -> lookup k (vals (st_db s)) <> None;
+  a6 : g_expn g = false -> expq s = [];
+  a7 : forall q k, In (q, k) (pend s) -> lookup k (vals (st_db s)) <> None -> In (k_kind k) (g_dirty g);
+  a8 : forall k p, lookup_pk k (pks (st_db s)) = Some p -> In (k, p) (g_offpk g);
+  au : g_disc g = true -> exists F, InvU F s g
+}.
+
+Lemma inv_init : Inv init ginit.
+Proof.
+  constructor; simpl; intros; try contradiction; try discriminate; try reflexivity.
+  exists (fun _ => None). constructor; simpl; intros; try contradiction; discriminate.
+Qed.
+
+Lemma kind_of_dt_inv t kd : kind_of_dt t = Some kd -> dt_of kd = t.
+Proof. destruct t; simpl; intro H; try discriminate; injection H as <-; reflexivity. Qed.
+
+Lemma offers_v_in t vis k v :
+  In (k, v) (flat_map (offers_v t) vis) -> In (k, v_cid v) (flat_map (offers t) vis).
+Proof.
+  intro H. apply in_flat_map in H. destruct H as [e [He H]]. apply in_flat_map. exists e. split; [exact He|].
+  rewrite offers_map. apply in_map_iff. exists (k, v). split; [reflexivity|exact H].
+Qed.
+
+Lemma store_keys_v t vis : store_keys t vis = map fst (flat_map (offers_v t) vis).
+Proof.
+  unfold store_keys. induction vis as [|e r IH]; [reflexivity|]. simpl. rewrite !map_app, IH. f_equal.
+  rewrite offers_map, map_map. reflexivity.
+Qed.
+
+(* phase 1 of a Store that passed the deadline check: the visited entries were written *)
+Lemma store_phase s g t sl vis d' kd :
+  Inv s g -> kind_of_dt t = Some kd ->
+  ext (flat_map (offers_v t) vis) (flat_map (offers_pk t) vis) (flat_map (offers_b t) vis) (st_db s) d' ->
+  Inv (mk d' (pend s) (outbox s) (expq s))
+      (mkg (g_pend g) (flat_map (offers t) vis ++ g_off g) (flat_map (offers_pk t) vis ++ g_offpk g) (g_ans g) (g_dead g)
+           (g_disc g && store_disc g (t, sl) Scheduled vis) (g_must g) (g_prov g) (g_expn g) (kd :: g_dirty g)).
+Proof.
+  intros I Hk X. destruct I as [A1 A2 A3 A3' A4 A5 A6 A7 A8 AU].
+  constructor; simpl; auto.
+  - intros k v H. apply in_or_app. destruct (x_new _ _ _ _ _ X _ _ H) as [H1|[_ H1]].
+    + right. apply A1. exact H1.
+    + left. apply offers_v_in. exact H1.
+  - intros q k c H. destruct (A2 _ _ _ H) as [H1 H2]. split; [exact H1|apply in_or_app; right; exact H2].
+  - intros k H. eapply present_mono; [exact X|]. apply A5. exact H.
+  - intros q k H1 H2. destruct (lookup k (vals (st_db s))) as [w|] eqn:Ew.
+    + right. eapply A7; [exact H1|]. rewrite Ew. discriminate.
+    + left. destruct (lookup k (vals d')) as [v|] eqn:Ev; [|congruence].
+      destruct (x_new _ _ _ _ _ X _ _ Ev) as [H3|[_ H3]]; [congruence|].
+      apply in_flat_map in H3. destruct H3 as [e [_ H3]]. apply offers_v_kind in H3. congruence.
+  - intros k p H. apply in_or_app. destruct (x_pnew _ _ _ _ _ X _ _ H) as [H1|H1]; [right; apply A8; exact H1|left; exact H1].
+  - intro Hd. apply andb_true_iff in Hd. destruct Hd as [Hd Hs].
+    apply andb_true_iff in Hs. destruct Hs as [Hnd Hsl].
+    destruct (AU Hd) as [F [U1 U2 U3 U4 U5 U6]]. simpl in *.
+    assert (Hdead : ~ In (t, sl) (g_dead g)).
+    { intro Hin. apply in_duties_In in Hin. rewrite Hin in Hnd. discriminate. }
+    assert (Hnew : forall k v, lookup k (vals (st_db s)) = None -> lookup k (vals d') = Some v ->
+                   (dt_of (k_kind k), k_slot k) = (t, sl)).
+    { intros k v H1 H2. destruct (x_new _ _ _ _ _ X _ _ H2) as [H3|[_ H3]]; [congruence|].
+      apply in_flat_map in H3. destruct H3 as [e [He H3]].
+      rewrite forallb_forall in Hsl. specialize (Hsl _ He).
+      rewrite (offers_v_slot _ _ _ _ _ Hsl H3). apply offers_v_kind in H3.
+      rewrite Hk in H3. injection H3 as <-. rewrite (kind_of_dt_inv _ _ Hk). reflexivity. }
+    exists (fun k => match F k with Some c => Some c | None => option_map v_cid (lookup k (vals d')) end).
+    constructor; simpl.
+    + intros k v H. destruct (F k) as [c|] eqn:EF; [|rewrite H; reflexivity].
+      destruct (lookup k (vals (st_db s))) as [w|] eqn:Ew.
+      * rewrite (x_mono _ _ _ _ _ X _ _ Ew) in H. injection H as <-. rewrite (U1 _ _ Ew) in EF. symmetry. exact EF.
+      * destruct (U4 _ _ EF) as [H1|H1]; [congruence|]. rewrite (Hnew _ _ Ew H) in H1. contradiction.
+    + intros q k c H. rewrite (U2 _ _ _ H). reflexivity.
+    + intros k c H. rewrite (U3 _ _ H). reflexivity.
+    + intros k c H. destruct (F k) as [c0|] eqn:EF.
+      * destruct (U4 _ _ EF) as [H1|H1]; [left; eapply present_mono; eassumption|right; exact H1].
+      * left. destruct (lookup k (vals d')); [discriminate|discriminate].
+    + intros b p H. destruct (x_abk _ _ _ _ _ X _ H) as [H1|H1]; [apply U5; exact H1|].
+      apply in_flat_map in H1. destruct H1 as [e [He H1]].
+      rewrite forallb_forall in Hsl. specialize (Hsl _ He).
+      destruct (offers_b_slot _ _ _ _ _ Hsl H1) as [-> ->]. reflexivity.
+    + exact U6.
+Qed.
+
+Lemma drop_kind_In kd x l : In x (drop_kind kd l) <-> In x l /\ x <> kd.
+Proof.
+  unfold drop_kind. rewrite filter_In. split; intros [H1 H2]; split; auto.
+  - intro E. subst. destruct kd; discriminate.
+  - destruct (kind_eqb x kd) eqn:E; [apply kind_eqb_eq in E; contradiction|reflexivity].
+Qed.
+
+(* phase 2: resolve<kd>QueriesUnsafe *)
+Lemma resolve_phase s g kd newm :
+  Inv s g ->
+  (forall q, In q newm -> exists k, In (q, k) (g_pend g) /\ k_kind k = kd /\ lookup k (vals (st_db s)) <> None) ->
+  Inv (do_resolve kd s)
+      (mkg (g_pend g) (g_off g) (g_offpk g) (g_ans g) (g_dead g) (g_disc g) (newm ++ g_must g) (g_prov g) (g_expn g)
+           (drop_kind kd (g_dirty g))).
+Proof.
+  intros I Hm. destruct I as [A1 A2 A3 A3' A4 A5 A6 A7 A8 AU].
+  unfold do_resolve. destruct (resolve kd (vals (st_db s)) (pend s)) as [p' o'] eqn:ER.
+  destruct (resolve_spec _ _ _ _ _ ER) as [R1 [R2 R3]].
+  constructor; simpl; auto.
+  - intros q k c H. apply in_app_or in H. destruct H as [H|H]; [apply A2; exact H|].
+    destruct (R3 _ _ _ H) as [H1 [_ [v [H2 ->]]]]. split; [apply A3'; exact H1|apply A1; exact H2].
+  - intros q k H. destruct (A3 _ _ H) as [H1|[c H1]].
+    + destruct (R1 _ _ H1) as [H2|[c H2]]; [left; exact H2|right; exists c; apply in_or_app; right; exact H2].
+    + right. exists c. apply in_or_app. left. exact H1.
+  - intros q k H. apply A3'. apply R2. exact H.
+  - intros q H. apply in_app_or in H. destruct H as [H|H].
+    + destruct (Hm _ H) as [k [H1 [H2 H3]]]. destruct (A3 _ _ H1) as [H4|[c H4]].
+      * destruct (R1 _ _ H4) as [H5|[c H5]].
+        -- destruct (R2 _ _ H5) as [_ H6]. specialize (H6 H2). contradiction.
+        -- exists k, c. apply in_or_app. right. exact H5.
+      * exists k, c. apply in_or_app. left. exact H4.
+    + destruct (A4 _ H) as [k [c H1]]. exists k, c. apply in_or_app. left. exact H1.
+  - intros q k H1 H2. destruct (R2 _ _ H1) as [H3 H4]. apply drop_kind_In. split; [eapply A7; eassumption|].
+    intro E. apply H4 in E. contradiction.
+  - intro Hd. destruct (AU Hd) as [F [U1 U2 U3 U4 U5 U6]]. exists F. constructor; simpl; auto.
+    intros q k c H. apply in_app_or in H. destruct H as [H|H]; [eapply U2; exact H|].
+    destruct (R3 _ _ _ H) as [_ [_ [v [H2 ->]]]]. apply U1. exact H2.
+Qed.
+
+(* phase 3: the drain loop over deadliner.C() *)
+Lemma drain_phase s g d2 q2 er newp :
+  Inv s g -> drain (expq s) (st_db s) = (d2, q2, er) ->
+  (forall k, In k newp -> lookup k (vals (st_db s)) <> None) ->
+  Inv (mk d2 (pend s) (outbox s) q2)
+      (mkg (g_pend g) (g_off g) (g_offpk g) (g_ans g) (g_dead g) (g_disc g) (g_must g)
+           (if g_expn g then [] else newp ++ g_prov g) (match er with None => false | _ => g_expn g end) (g_dirty g)).
+Proof.
+  intros I HD Hp. destruct I as [A1 A2 A3 A3' A4 A5 A6 A7 A8 AU].
+  destruct (drain_spec _ _ _ _ _ HD) as [D1 [D2 [D3 [D4 [D5 [D6 D7]]]]]].
+  constructor; simpl; auto.
+  - intros k H. destruct (g_expn g) eqn:E; [contradiction|].
+    rewrite (A6 eq_refl) in HD. rewrite drain_nil in HD. injection HD as <- _ _.
+    apply in_app_or in H. destruct H as [H|H]; [apply Hp; exact H|apply A5; exact H].
+  - intro H. destruct er as [e|]; [|apply D5; reflexivity].
+    rewrite (A6 H) in HD. rewrite drain_nil in HD. discriminate.
+  - intros q k H1 H2. eapply A7; [exact H1|]. destruct (lookup k (vals d2)) as [v|] eqn:E; [|congruence].
+    rewrite (D1 _ _ E). discriminate.
+  - intro Hd. destruct (AU Hd) as [F [U1 U2 U3 U4 U5 U6]]. exists F. constructor; simpl; auto.
+    + intros k c H. destruct (U4 _ _ H) as [H1|H1]; [|right; exact H1].
+      destruct (lookup k (vals (st_db s))) as [v|] eqn:Ev; [|congruence].
+      destruct (lookup k (vals d2)) as [w|] eqn:Ew; [left; discriminate|].
+      right. destruct (D7 _ _ Ev Ew) as [H2|[Hk [sl [p [H3 [H4 H5]]]]]].
+      * apply U6. exact H2.
+      * rewrite Hk. simpl. rewrite H5. rewrite <- (U5 _ _ H4). apply U6. exact H3.
+Qed.
+
+Lemma drop_kind_cons_same kd l : drop_kind kd (kd :: l) = drop_kind kd l.
+Proof. unfold drop_kind. simpl. replace (kind_eqb kd kd) with true; [reflexivity|]. destruct kd; reflexivity. Qed.
+
+Lemma drop_q_In q x l : In x (drop_q q l) <-> In x l /\ fst x <> q.
+Proof.
+  unfold drop_q. rewrite filter_In. split; intros [H1 H2]; split; auto.
+  - intro E. rewrite E, N.eqb_refl in H2. discriminate.
+  - destruct (N.eqb_spec (fst x) q); [contradiction|reflexivity].
+Qed.
+Lemma drop_n_In q x l : In x (drop_n q l) <-> In x l /\ x <> q.
+Proof.
+  unfold drop_n. rewrite filter_In. split; intros [H1 H2]; split; auto.
+  - intro E. rewrite E, N.eqb_refl in H2. discriminate.
+  - destruct (N.eqb_spec x q); [contradiction|reflexivity].
+Qed.
+Lemma drop_out_In q (x : N * key * N) l :
+  In x (filter (fun x => negb (N.eqb (fst (fst x)) q)) l) <-> In x l /\ fst (fst x) <> q.
+Proof.
+  rewrite filter_In. split; intros [H1 H2]; split; auto.
+  - intro E. rewrite E, N.eqb_refl in H2. discriminate.
+  - destruct (N.eqb_spec (fst (fst x)) q); [contradiction|reflexivity].
+Qed.
+
+(* a reader returned (answer or cancellation): its query disappears everywhere *)
+Lemma return_phase s g q ans :
+  Inv s g ->
+  (forall k c, In (k, c) ans -> exists q', In (q', k, c) (outbox s)) ->
+  Inv (mk (st_db s) (drop_q q (pend s)) (filter (fun x => negb (N.eqb (fst (fst x)) q)) (outbox s)) (expq s))
+      (mkg (drop_q q (g_pend g)) (g_off g) (g_offpk g) (ans ++ g_ans g) (g_dead g) (g_disc g)
+           (drop_n q (g_must g)) (g_prov g) (g_expn g) (g_dirty g)).
+Proof.
+  intros I Ha. destruct I as [A1 A2 A3 A3' A4 A5 A6 A7 A8 AU].
+  constructor; simpl; auto.
+  - intros q' k c H. apply drop_out_In in H. destruct H as [H Hq]. destruct (A2 _ _ _ H) as [H1 H2].
+    split; [|exact H2]. apply drop_q_In. split; [exact H1|exact Hq].
+  - intros q' k H. apply drop_q_In in H. destruct H as [H Hq]. destruct (A3 _ _ H) as [H1|[c H1]].
+    + left. apply drop_q_In. split; assumption.
+    + right. exists c. apply drop_out_In. split; assumption.
+  - intros q' k H. apply drop_q_In in H. destruct H as [H Hq]. apply drop_q_In. split; [apply A3'; exact H|exact Hq].
+  - intros q' H. apply drop_n_In in H. destruct H as [H Hq]. destruct (A4 _ H) as [k [c H1]].
+    exists k, c. apply drop_out_In. split; [exact H1|exact Hq].
+  - intros q' k H. apply drop_q_In in H. destruct H as [H _]. apply (A7 q'). exact H.
+  - intro Hd. destruct (AU Hd) as [F [U1 U2 U3 U4 U5 U6]]. exists F. constructor; simpl; auto.
+    + intros q' k c H. apply drop_out_In in H. destruct H as [H _]. eapply U2. exact H.
+    + intros k c H. apply in_app_or in H. destruct H as [H|H]; [|apply U3; exact H].
+      destruct (Ha _ _ H) as [q' H1]. eapply U2. exact H1.
+Qed.
+
+Lemma state_eta s : mk (st_db s) (pend s) (outbox s) (expq s) = s.
+Proof. destruct s; reflexivity. Qed.
+
+Lemma inv_weaken_disc s g b :
+  Inv s g ->
+  Inv s (mkg (g_pend g) (g_off g) (g_offpk g) (g_ans g) (g_dead g) (g_disc g && b) (g_must g) (g_prov g) (g_expn g) (g_dirty g)).
+Proof.
+  intros [A1 A2 A3 A3' A4 A5 A6 A7 A8 AU]. constructor; simpl; auto.
+  intro Hd. apply andb_true_iff in Hd. destruct Hd as [Hd _]. destruct (AU Hd) as [F [U1 U2 U3 U4 U5 U6]].
+  exists F. constructor; simpl; auto.
+Qed.
+
+Lemma entry_err_not_resolved er : entry_err er = true -> resolved_res (Some er) = false /\ er <> ERefused.
+Proof. destruct er; simpl; intro H; try discriminate; split; try reflexivity; discriminate. Qed.
+
+Lemma step_sound s g l s' :
+  Inv s g -> step s l = Some s' -> check g l = true /\ Inv s' (gstep g l).
+Proof.
+  intros I Hs. destruct l as [[t sl] st vis unv res|q k|q k c|q|d|slot comm vidx r|];
+    cbv beta iota delta [step step_gen] in Hs.
+  - (* LStore *)
+    assert (Refused : forall (b : bool), (if res_eqb res (Some ERefused) && nil_entries vis then Some s else None) = Some s' ->
+               st <> Scheduled -> (match st with Scheduled => b | _ => res_eqb res (Some ERefused) && nil_entries vis end) = true
+               /\ Inv s' (match st with Scheduled => gstep g (LStore (t, sl) Scheduled vis unv res) | _ => g end)).
+    { intros b H Hst. destruct (res_eqb res (Some ERefused) && nil_entries vis) eqn:E; [|discriminate].
+      injection H as <-. destruct st; try contradiction; split; auto. }
+    destruct st.
+    + destruct (Refused true Hs) as [H1 H2]; [discriminate|]. split; [exact H1|exact H2].
+    + (* Scheduled *)
+      unfold check, gstep. cbv beta iota. simpl fst.
+      destruct (kind_of_dt t) as [kd|] eqn:Ek.
+      * destruct (dtype_eqb t DPro && Nat.ltb 1 (length (vis ++ unv))) eqn:Elen.
+        -- (* ELen *)
+           destruct (res_eqb res (Some ELen) && nil_entries vis) eqn:E; [|discriminate]. injection Hs as <-.
+           apply andb_true_iff in E. destruct E as [E1 E2]. apply res_eqb_eq in E1. apply nil_entries_nil in E2. subst res vis.
+           split; [reflexivity|]. simpl resolved_res. cbv iota.
+           pose proof (store_phase s g t sl [] (st_db s) kd I Ek (ext_refl _ _ _ _)) as P.
+           rewrite state_eta in P. exact P.
+        -- destruct (store_entries false t vis (st_db s)) as [[d' [er|]]|] eqn:ES; [| |discriminate].
+           ++ (* an entry failed *)
+              destruct (res_eqb res (Some er)) eqn:E; [|discriminate]. injection Hs as <-.
+              apply res_eqb_eq in E. subst res.
+              destruct (store_entries_spec _ _ _ _ _ ES) as [X [_ He]].
+              destruct (entry_err_not_resolved _ (He _ eq_refl)) as [Hr Hne]. rewrite Hr. split.
+              ** destruct er; try reflexivity. contradiction.
+              ** apply store_phase; assumption.
+           ++ (* all entries stored: resolve, drain *)
+              destruct (nil_entries unv) eqn:Eu; [|discriminate].
+              destruct (store_entries_spec _ _ _ _ _ ES) as [X [Hp _]]. specialize (Hp eq_refl).
+              pose proof (store_phase s g t sl vis d' kd I Ek X) as P1.
+              set (s1 := mk d' (pend s) (outbox s) (expq s)) in *.
+              set (newm := map fst (filter (fun x => in_keys (snd x) (store_keys t vis)) (g_pend g))).
+              assert (Hm : forall q, In q newm -> exists k, In (q, k) (g_pend g) /\ k_kind k = kd /\ lookup k (vals d') <> None).
+              { intros q Hq. unfold newm in Hq. apply in_map_iff in Hq. destruct Hq as [[q' k] [E Hq]]. simpl in E. subst q'.
+                apply filter_In in Hq. destruct Hq as [Hq Hk]. simpl in Hk. apply in_keys_In in Hk.
+                exists k. split; [exact Hq|]. rewrite store_keys_v in Hk. split; [|apply Hp; exact Hk].
+                apply in_map_iff in Hk. destruct Hk as [[k' v] [E Hk]]. simpl in E. subst k'.
+                apply in_flat_map in Hk. destruct Hk as [e [_ Hk]]. apply offers_v_kind in Hk. congruence. }
+              pose proof (resolve_phase s1 _ kd newm P1 Hm) as P2. cbn [g_pend g_off g_offpk g_ans g_dead g_disc g_must g_prov g_expn g_dirty] in P2.
+              rewrite drop_kind_cons_same in P2.
+              cbv zeta in Hs.
+              destruct (drain (expq (do_resolve kd s1)) (st_db (do_resolve kd s1))) as [[d2 q2] er] eqn:ED.
+              destruct (res_eqb res er) eqn:E; [|discriminate]. injection Hs as <-.
+              apply res_eqb_eq in E. subst res.
+              assert (Hsame : st_db (do_resolve kd s1) = d').
+              { unfold do_resolve. destruct (resolve kd (vals (st_db s1)) (pend s1)). reflexivity. }
+              assert (Hprov : forall k, In k (store_keys t vis) -> lookup k (vals (st_db (do_resolve kd s1))) <> None).
+              { intros k Hk. rewrite Hsame. apply Hp. rewrite <- store_keys_v. exact Hk. }
+              pose proof (drain_phase _ _ _ _ _ (store_keys t vis) P2 ED Hprov) as P3. cbn [g_pend g_off g_offpk g_ans g_dead g_disc g_must g_prov g_expn g_dirty] in P3.
+              destruct (drain_spec _ _ _ _ _ ED) as [_ [_ [_ [_ [_ [De _]]]]]].
+              assert (Hres : resolved_res er = true).
+              { destruct er as [e|]; [|reflexivity]. destruct (De _ eq_refl) as [-> | ->]; reflexivity. }
+              rewrite Hres. split.
+              ** destruct er as [e|]; [|reflexivity]. destruct (De _ eq_refl) as [-> | ->]; reflexivity.
+              ** exact P3.
+      * (* builder / unsupported type *)
+        destruct (res_eqb res (Some match t with DBuilder => EDeprecated | _ => EUnsupported end) && nil_entries vis) eqn:E; [|discriminate].
+        injection Hs as <-. apply andb_true_iff in E. destruct E as [E1 E2].
+        apply res_eqb_eq in E1. apply nil_entries_nil in E2. subst vis. split.
+        -- subst res. destruct t; reflexivity.
+        -- simpl. apply inv_weaken_disc. exact I.
+    + destruct (Refused true Hs) as [H1 H2]; [discriminate|]. split; [exact H1|exact H2].
+  - (* LAwaitReg *)
+    destruct (qid_in_pend q (pend s) || qid_in_out q (outbox s)); [discriminate|]. injection Hs as <-.
+    split; [reflexivity|].
+    set (s1 := mk (st_db s) (pend s ++ [(q, k)]) (outbox s) (expq s)).
+    assert (P1 : Inv s1 (mkg (g_pend g ++ [(q, k)]) (g_off g) (g_offpk g) (g_ans g) (g_dead g) (g_disc g) (g_must g)
+                          (g_prov g) (g_expn g) (k_kind k :: g_dirty g))).
+    { destruct I as [A1 A2 A3 A3' A4 A5 A6 A7 A8 AU]. constructor; simpl; auto.
+      - intros q' k' c H. destruct (A2 _ _ _ H) as [H1 H2]. split; [apply in_or_app; left; exact H1|exact H2].
+      - intros q' k' H. apply in_app_or in H. destruct H as [H|H].
+        + destruct (A3 _ _ H) as [H1|H1]; [left; apply in_or_app; left; exact H1|right; exact H1].
+        + left. apply in_or_app. right. exact H.
+      - intros q' k' H. apply in_app_or in H. apply in_or_app. destruct H as [H|H]; [left; apply A3'; exact H|right; exact H].
+      - intros q' k' H H2. apply in_app_or in H. destruct H as [H|[H|[]]].
+        + right. eapply A7; eassumption.
+        + injection H as <- <-. left. reflexivity.
+      - intro Hd. destruct (AU Hd) as [F [U1 U2 U3 U4 U5 U6]]. exists F. constructor; simpl; auto. }
+    set (newm := if in_keys k (g_prov g) then [q] else []).
+    assert (Hm : forall q0, In q0 newm -> exists k0, In (q0, k0) (g_pend g ++ [(q, k)]) /\ k_kind k0 = k_kind k /\ lookup k0 (vals (st_db s1)) <> None).
+    { intros q0 H. unfold newm in H. destruct (in_keys k (g_prov g)) eqn:E; [|contradiction].
+      destruct H as [<-|[]]. exists k. split; [apply in_or_app; right; left; reflexivity|]. split; [reflexivity|].
+      apply in_keys_In in E. destruct I. auto. }
+    pose proof (resolve_phase s1 _ (k_kind k) newm P1 Hm) as P2. cbn [g_pend g_off g_offpk g_ans g_dead g_disc g_must g_prov g_expn g_dirty] in P2.
+    rewrite drop_kind_cons_same in P2. unfold gstep. unfold newm in P2.
+    destruct (in_keys k (g_prov g)); exact P2.
+  - (* LAnswer *)
+    destruct (existsb (ans_eqb (q, k, c)) (outbox s)) eqn:E; [|discriminate]. injection Hs as <-.
+    apply ans_in_In in E. split.
+    + unfold check. destruct I as [A1 A2 A3 A3' A4 A5 A6 A7 A8 AU]. destruct (A2 _ _ _ E) as [H1 H2].
+      apply andb_true_iff. split; [apply andb_true_iff; split; [apply qk_in_In; exact H1|apply pair_in_In; exact H2]|].
+      destruct (g_disc g) eqn:Ed; [|reflexivity]. simpl. apply ans_agree_spec. intros c' Hc.
+      destruct (AU eq_refl) as [F [U1 U2 U3 U4 U5 U6]].
+      pose proof (U2 _ _ _ E). pose proof (U3 _ _ Hc). congruence.
+    + apply (return_phase s g q [(k, c)] I). intros k' c' [H|[]]. injection H as <- <-. exists q. exact E.
+  - (* LCancel *)
+    destruct (qid_in_pend q (pend s) || qid_in_out q (outbox s)); [|discriminate]. injection Hs as <-.
+    split; [reflexivity|]. apply (return_phase s g q [] I). intros k' c' [].
+  - (* LExpire *)
+    injection Hs as <-. split; [reflexivity|].
+    destruct I as [A1 A2 A3 A3' A4 A5 A6 A7 A8 AU]. constructor; simpl; auto; [discriminate|].
+    intro Hd. destruct (AU Hd) as [F [U1 U2 U3 U4 U5 U6]]. exists F. constructor; simpl; auto.
+    + intros k c H. destruct (U4 _ _ H) as [H1|H1]; [left; exact H1|right; right; exact H1].
+    + intros d0 H. apply in_app_or in H. destruct H as [H|[H|[]]]; [right; apply U6; exact H|left; exact H].
+  - (* LPubKey *)
+    destruct (opt_eqb r (lookup_pk (slot, comm, vidx) (pks (st_db s)))) eqn:E; [|discriminate]. injection Hs as <-.
+    split; [|exact I]. unfold check. destruct r as [p|]; [|reflexivity].
+    destruct (lookup_pk (slot, comm, vidx) (pks (st_db s))) as [p'|] eqn:El; simpl in E; [|discriminate].
+    apply N.eqb_eq in E. subst p'. apply pk_in_In. destruct I. auto.
+  - (* LQuiet *)
+    destruct (outbox s) as [|x r] eqn:Eo; [|discriminate]. injection Hs as <-. split; [|exact I].
+    unfold check. destruct (g_must g) as [|q r] eqn:Em; [reflexivity|].
+    destruct I as [A1 A2 A3 A3' A4 A5 A6 A7 A8 AU]. destruct (A4 q) as [k [c H]]; [rewrite Em; left; reflexivity|].
+    rewrite Eo in H. contradiction.
+Qed.
+
+(* ---------- main theorem: every trace of the model passes the monitor ---------- *)
+Lemma run_sound ls : forall s g s', Inv s g -> run_gen false s ls = Some s' ->
+  monitor_from g ls = true /\ Inv s' (ghost_after g ls).
+Proof.
+  induction ls as [|l r IH]; intros s g s' I H; simpl in *.
+  - injection H as <-. split; [reflexivity|exact I].
+  - destruct (step_gen false s l) as [s1|] eqn:E; [|discriminate].
+    destruct (step_sound _ _ _ _ I E) as [C I1]. rewrite C. simpl. eapply IH; eassumption.
+Qed.
+
+Theorem run_monitor ls s : run init ls = Some s -> monitor ls = true.
+Proof. intro H. exact (proj1 (run_sound ls _ _ _ inv_init H)). Qed.
+
+Theorem run_inv ls s : run init ls = Some s -> Inv s (ghost_after ginit ls).
+Proof. intro H. exact (proj2 (run_sound ls _ _ _ inv_init H)). Qed.
+
+Lemma run_app a : forall s b s', run_gen false s (a ++ b) = Some s' ->
+  exists s1, run_gen false s a = Some s1 /\ run_gen false s1 b = Some s'.
+Proof.
+  induction a as [|l r IH]; intros s b s' H; simpl in *.
+  - exists s. split; [reflexivity|exact H].
+  - destruct (step_gen false s l) as [s1|]; [|discriminate]. apply IH. exact H.
+Qed.
+
+(* ---------- reading the monitor ---------- *)
+Lemma ghost_after_app a : forall g b, ghost_after g (a ++ b) = ghost_after (ghost_after g a) b.
+Proof. induction a as [|l r IH]; intros g b; simpl; [reflexivity|apply IH]. Qed.
+
+Lemma monitor_split a : forall g l b, monitor_from g (a ++ l :: b) = true ->
+  check (ghost_after g a) l = true /\ monitor_from (gstep (ghost_after g a) l) b = true.
+Proof.
+  induction a as [|x r IH]; intros g l b H; simpl in *.
+  - apply andb_true_iff in H. exact H.
+  - apply andb_true_iff in H. destruct H as [_ H]. apply IH. exact H.
+Qed.
+
+Lemma disc_step g l : g_disc (gstep g l) = true -> g_disc g = true.
+Proof.
+  destruct l as [d st vis unv res|q k|q k c|q|d|slot comm vidx r|]; simpl; auto.
+  destruct st; auto. destruct (kind_of_dt (fst d)); [destruct (resolved_res res)|]; simpl; intro H;
+    apply andb_true_iff in H; tauto.
+Qed.
+Lemma disc_mono ls : forall g, g_disc (ghost_after g ls) = true -> g_disc g = true.
+Proof. induction ls as [|l r IH]; intros g H; simpl in *; [exact H|]. apply disc_step with l. apply IH. exact H. Qed.
+
+Lemma ans_step g l x : In x (g_ans g) -> In x (g_ans (gstep g l)).
+Proof.
+  destruct l as [d st vis unv res|q k|q k c|q|d|slot comm vidx r|]; simpl; auto.
+  destruct st; auto. destruct (kind_of_dt (fst d)); [destruct (resolved_res res)|]; simpl; auto.
+Qed.
+Lemma ans_mono ls : forall g x, In x (g_ans g) -> In x (g_ans (ghost_after g ls)).
+Proof. induction ls as [|l r IH]; intros g x H; simpl; [exact H|]. apply IH. apply ans_step. exact H. Qed.
+
+(* all answers ever given for one key carry the same content *)
+Theorem answers_unique ls : monitor ls = true -> disciplined ls = true ->
+  forall pre q1 k c1 mid q2 c2 post,
+    ls = pre ++ LAnswer q1 k c1 :: mid ++ LAnswer q2 k c2 :: post -> c1 = c2.
+Proof.
+  intros M D pre q1 k c1 mid q2 c2 post E. subst ls. unfold monitor, disciplined in *.
+  replace (pre ++ LAnswer q1 k c1 :: mid ++ LAnswer q2 k c2 :: post)
+    with ((pre ++ LAnswer q1 k c1 :: mid) ++ LAnswer q2 k c2 :: post) in *
+    by (rewrite <- app_assoc; reflexivity).
+  destruct (monitor_split _ _ _ _ M) as [C _].
+  rewrite ghost_after_app in D. simpl in D. apply disc_mono in D. simpl in D.
+  unfold check in C. rewrite D in C. simpl in C. apply andb_true_iff in C. destruct C as [_ C].
+  rewrite ans_agree_spec in C. apply C.
+  rewrite ghost_after_app. simpl. apply ans_mono. simpl. left. reflexivity.
+Qed.
+
+Lemma pend_origin ls : forall g q k, In (q, k) (g_pend (ghost_after g ls)) -> In (q, k) (g_pend g) \/ In (LAwaitReg q k) ls.
+Proof.
+  induction ls as [|l r IH]; intros g q k H; simpl in *; [left; exact H|].
+  destruct (IH _ _ _ H) as [H1|H1]; [|right; right; exact H1].
+  destruct l as [d st vis unv res|q' k'|q' k' c|q'|d|slot comm vidx r'|]; simpl in H1; auto.
+  - destruct st; auto. destruct (kind_of_dt (fst d)); [destruct (resolved_res res)|]; simpl in H1; auto.
+  - apply in_app_or in H1. destruct H1 as [H1|[H1|[]]]; [left; exact H1|]. injection H1 as <- <-. right. left. reflexivity.
+  - apply drop_q_In in H1. left. tauto.
+  - apply drop_q_In in H1. left. tauto.
+Qed.
+
+Lemma off_origin ls : forall g k c, In (k, c) (g_off (ghost_after g ls)) ->
+  In (k, c) (g_off g) \/ exists d vis unv res e, In (LStore d Scheduled vis unv res) ls /\ In e vis /\ In (k, c) (offers (fst d) e).
+Proof.
+  induction ls as [|l r IH]; intros g k c H; simpl in *; [left; exact H|].
+  destruct (IH _ _ _ H) as [H1|[d [vis [unv [res [e [H1 H2]]]]]]]; [|right; exists d, vis, unv, res, e; split; [right; exact H1|exact H2]].
+  destruct l as [d st vis unv res|q' k'|q' k' c'|q'|d|slot comm vidx r'|]; simpl in H1; auto.
+  destruct st; auto.
+  assert (In (k, c) (flat_map (offers (fst d)) vis ++ g_off g)).
+  { destruct (kind_of_dt (fst d)); [destruct (resolved_res res)|]; exact H1. }
+  apply in_app_or in H0. destruct H0 as [H0|H0]; [|left; exact H0].
+  apply in_flat_map in H0. destruct H0 as [e [He H0]]. right. exists d, vis, unv, res, e. split; [left; reflexivity|split; assumption].
+Qed.
+
+Lemma offpk_origin ls : forall g k c, In (k, c) (g_offpk (ghost_after g ls)) ->
+  In (k, c) (g_offpk g) \/ exists d vis unv res e, In (LStore d Scheduled vis unv res) ls /\ In e vis /\ In (k, c) (offers_pk (fst d) e).
+Proof.
+  induction ls as [|l r IH]; intros g k c H; simpl in *; [left; exact H|].
+  destruct (IH _ _ _ H) as [H1|[d [vis [unv [res [e [H1 H2]]]]]]]; [|right; exists d, vis, unv, res, e; split; [right; exact H1|exact H2]].
+  destruct l as [d st vis unv res|q' k'|q' k' c'|q'|d|slot comm vidx r'|]; simpl in H1; auto.
+  destruct st; auto.
+  assert (In (k, c) (flat_map (offers_pk (fst d)) vis ++ g_offpk g)).
+  { destruct (kind_of_dt (fst d)); [destruct (resolved_res res)|]; exact H1. }
+  apply in_app_or in H0. destruct H0 as [H0|H0]; [|left; exact H0].
+  apply in_flat_map in H0. destruct H0 as [e [He H0]]. right. exists d, vis, unv, res, e. split; [left; reflexivity|split; assumption].
+Qed.
+
+(* a blocking query returns only data that was handed, for that very key, to a Store that was not refused *)
+Theorem answer_facts ls : monitor ls = true ->
+  forall pre q k c post, ls = pre ++ LAnswer q k c :: post ->
+  In (LAwaitReg q k) pre /\
+  exists d vis unv res e, In (LStore d Scheduled vis unv res) pre /\ In e vis /\ In (k, c) (offers (fst d) e).
+Proof.
+  intros M pre q k c post E. subst ls. destruct (monitor_split _ _ _ _ M) as [C _].
+  unfold check in C. rewrite !andb_true_iff in C. destruct C as [[C1 C2] _].
+  apply qk_in_In in C1. apply pair_in_In in C2. split.
+  - destruct (pend_origin _ _ _ _ C1) as [H|H]; [contradiction|exact H].
+  - destruct (off_origin _ _ _ _ C2) as [H|H]; [contradiction|exact H].
+Qed.
+
+Theorem pubkey_facts ls : monitor ls = true ->
+  forall pre slot comm vidx p post, ls = pre ++ LPubKey slot comm vidx (Some p) :: post ->
+  exists d vis unv res e, In (LStore d Scheduled vis unv res) pre /\ In e vis /\ In ((slot, comm, vidx), p) (offers_pk (fst d) e).
+Proof.
+  intros M pre slot comm vidx p post E. subst ls. destruct (monitor_split _ _ _ _ M) as [C _].
+  unfold check in C. apply pk_in_In in C.
+  destruct (offpk_origin _ _ _ _ C) as [H|H]; [contradiction|exact H].
+Qed.
+
+(* data for an expired (or exempt) duty is refused: error, no entry touched; and only then *)
+Theorem refused_facts ls : monitor ls = true ->
+  forall pre d st vis unv res post, ls = pre ++ LStore d st vis unv res :: post ->
+  (st <> Scheduled -> res = Some ERefused /\ vis = []) /\ (st = Scheduled -> res <> Some ERefused).
+Proof.
+  intros M pre d st vis unv res post E. subst ls. destruct (monitor_split _ _ _ _ M) as [C _].
+  unfold check in C. split.
+  - intro Hs. destruct st; try contradiction; apply andb_true_iff in C; destruct C as [C1 C2];
+      apply res_eqb_eq in C1; apply nil_entries_nil in C2; split; assumption.
+  - intros -> E. subst res. discriminate.
+Qed.
+
+Theorem refused_no_change s d st vis unv res s' :
+  step s (LStore d st vis unv res) = Some s' -> st <> Scheduled -> s' = s.
+Proof.
+  destruct d as [t sl]. cbv beta iota delta [step step_gen]. intros H Hs.
+  destruct st; try contradiction; destruct (res_eqb res (Some ERefused) && nil_entries vis); congruence.
+Qed.
+
+(* ---- no lost wake-up, on the trace ---- *)
+Definition returns (q : N) (l : label) : Prop := l = LCancel q \/ exists k c, l = LAnswer q k c.
+
+(* q asked for k and has not returned yet *)
+Definition outstanding (pre : list label) (q : N) (k : key) : Prop := In (q, k) (g_pend (ghost_after ginit pre)).
+(* k was provided by a successful Store and no deletion can have happened since *)
+Definition provided (pre : list label) (k : key) : Prop := In k (g_prov (ghost_after ginit pre)).
+
+Lemma must_returns mid : forall g q post,
+  In q (g_must g) -> monitor_from g (mid ++ LQuiet :: post) = true -> exists l, In l mid /\ returns q l.
+Proof.
+  induction mid as [|l r IH]; intros g q post Hq M; simpl in M.
+  - apply andb_true_iff in M. destruct M as [M _]. destruct (g_must g); [contradiction|discriminate].
+  - apply andb_true_iff in M. destruct M as [_ M].
+    assert (Keep : In q (g_must (gstep g l)) -> exists l0, In l0 (l :: r) /\ returns q l0).
+    { intro H. destruct (IH _ _ _ H M) as [l0 [H1 H2]]. exists l0. split; [right; exact H1|exact H2]. }
+    destruct l as [d st vis unv res|q' k'|q' k' c'|q'|d|slot comm vidx r'|]; simpl in Keep; auto.
+    + destruct st; auto. destruct (kind_of_dt (fst d)); [destruct (resolved_res res)|]; simpl in Keep; auto.
+      apply Keep. apply in_or_app. right. exact Hq.
+    + apply Keep. destruct (in_keys k' (g_prov g)); [right|]; exact Hq.
+    + destruct (N.eqb_spec q q') as [->|Hne].
+      * exists (LAnswer q' k' c'). split; [left; reflexivity|right; exists k', c'; reflexivity].
+      * apply Keep. apply drop_n_In. split; assumption.
+    + destruct (N.eqb_spec q q') as [->|Hne].
+      * exists (LCancel q'). split; [left; reflexivity|left; reflexivity].
+      * apply Keep. apply drop_n_In. split; assumption.
+Qed.
+
+(* once a Store that got through has provided k, every reader waiting for k returns before the
+   next quiescent point *)
+Theorem wakeup_on_store ls : monitor ls = true ->
+  forall pre d vis unv res mid post q k,
+    ls = pre ++ LStore d Scheduled vis unv res :: mid ++ LQuiet :: post ->
+    kind_of_dt (fst d) <> None -> resolved_res res = true ->
+    outstanding pre q k -> In k (store_keys (fst d) vis) ->
+    exists l, In l mid /\ returns q l.
+Proof.
+  intros M pre d vis unv res mid post q k E Hk Hr Ho Hin. subst ls.
+  destruct (monitor_split _ _ _ _ M) as [_ M2]. eapply must_returns; [|exact M2].
+  unfold gstep. destruct (kind_of_dt (fst d)) as [kd|]; [|contradiction]. rewrite Hr. simpl.
+  apply in_or_app. left. apply in_map_iff. exists (q, k). split; [reflexivity|].
+  apply filter_In. split; [exact Ho|]. simpl. apply in_keys_In. exact Hin.
+Qed.
+
+(* a query for a key that is provided returns before the next quiescent point *)
+Theorem wakeup_on_await ls : monitor ls = true ->
+  forall pre q k mid post, ls = pre ++ LAwaitReg q k :: mid ++ LQuiet :: post ->
+    provided pre k -> exists l, In l mid /\ returns q l.
+Proof.
+  intros M pre q k mid post E Hp. subst ls.
+  destruct (monitor_split _ _ _ _ M) as [_ M2]. eapply must_returns; [|exact M2].
+  simpl. apply in_keys_In in Hp. rewrite Hp. left. reflexivity.
+Qed.
+
+(* ---- no lost wake-up, on the state ---- *)
+Theorem stale_only_after_failed_store ls s : run init ls = Some s ->
+  forall q k, In (q, k) (pend s) -> lookup k (vals (st_db s)) <> None -> In (k_kind k) (g_dirty (ghost_after ginit ls)).
+Proof. intros H q k. apply (a7 _ _ (run_inv _ _ H)). Qed.
+
+Theorem no_lost_wakeup_store pre t sl vis unv res s kd :
+  run init (pre ++ [LStore (t, sl) Scheduled vis unv res]) = Some s ->
+  kind_of_dt t = Some kd -> resolved_res res = true ->
+  forall q k, In (q, k) (pend s) -> k_kind k = kd -> lookup k (vals (st_db s)) = None.
+Proof.
+  intros H Hk Hr q k Hin Hkd. destruct (lookup k (vals (st_db s))) eqn:E; [|reflexivity]. exfalso.
+  assert (P : In (k_kind k) (g_dirty (ghost_after ginit (pre ++ [LStore (t, sl) Scheduled vis unv res])))).
+  { eapply stale_only_after_failed_store; [exact H|exact Hin|]. rewrite E. discriminate. }
+  rewrite ghost_after_app in P. simpl in P. rewrite Hk, Hr in P. simpl in P.
+  apply drop_kind_In in P. destruct P as [_ P]. contradiction.
+Qed.
+
+Theorem no_lost_wakeup_await pre q0 k0 s :
+  run init (pre ++ [LAwaitReg q0 k0]) = Some s ->
+  forall q k, In (q, k) (pend s) -> k_kind k = k_kind k0 -> lookup k (vals (st_db s)) = None.
+Proof.
+  intros H q k Hin Hkd. destruct (lookup k (vals (st_db s))) eqn:E; [|reflexivity]. exfalso.
+  assert (P : In (k_kind k) (g_dirty (ghost_after ginit (pre ++ [LAwaitReg q0 k0])))).
+  { eapply stale_only_after_failed_store; [exact H|exact Hin|]. rewrite E. discriminate. }
+  rewrite ghost_after_app in P. simpl in P. apply drop_kind_In in P. destruct P as [_ P]. contradiction.
+Qed.
+
+(* ---------- clashes ---------- *)
+(* entry e, stored as part of a set of type t, conflicts with what db d holds *)
+Definition conflicts (t : dtype) (e : entry) (d : db) : Prop :=
+  match t, e with
+  | DAtt, EAtt pk _ slot comm vidx cid src tgt =>
+      (exists p, lookup_pk (slot, comm, vidx) (pks d) = Some p /\ p <> pk) \/
+      (exists w, lookup (K KAtt slot comm 0) (vals d) = Some w /\ v_root w <> cid) \/
+      (exists p, lookup_pk (slot, 0, vidx) (pks d) = Some p /\ p <> pk) \/
+      (exists w, lookup (K KAtt slot 0 0) (vals d) = Some w /\ (v_src w <> src \/ v_tgt w <> tgt))
+  | DPro, EPro slot root _ => exists w, lookup (K KPro slot 0 0) (vals d) = Some w /\ v_root w <> root
+  | DCon, ECon cs =>
+      exists slot sub broot cid w, In (slot, sub, broot, cid) cs /\
+        lookup (K KCon slot sub broot) (vals d) = Some w /\ v_root w <> cid
+  | _, _ => False     (* aggregates: the key contains the data root, equal keys never clash *)
+  end.
+
+Lemma conflicts_mono t e ov op ob d d' : ext ov op ob d d' -> conflicts t e d -> conflicts t e d'.
+Proof.
+  intros X. destruct t, e; simpl; auto.
+  - intros [[p [H1 H2]]|[[w [H1 H2]]|[[p [H1 H2]]|[w [H1 H2]]]]].
+    + left. exists p. split; [eapply x_pmono; eassumption|exact H2].
+    + right. left. exists w. split; [eapply x_mono; eassumption|exact H2].
+    + right. right. left. exists p. split; [eapply x_pmono; eassumption|exact H2].
+    + right. right. right. exists w. split; [eapply x_mono; eassumption|exact H2].
+  - intros [w [H1 H2]]. exists w. split; [eapply x_mono; eassumption|exact H2].
+  - intros [a [b [c [dd [w [H0 [H1 H2]]]]]]]. exists a, b, c, dd, w. split; [exact H0|]. split; [eapply x_mono; eassumption|exact H2].
+Qed.
+
+Lemma put_root_clash e k v d w : lookup k (vals d) = Some w -> v_root w <> v_root v -> put_root e k v d = (d, Some e).
+Proof. intros H1 H2. unfold put_root. rewrite H1. destruct (N.eqb_spec (v_root w) (v_root v)); [contradiction|reflexivity]. Qed.
+Lemma put_pk_clash pk ds pkk d p : lookup_pk pkk (pks d) = Some p -> p <> pk -> put_pk pk ds pkk d = (d, Some EClashPK).
+Proof. intros H1 H2. unfold put_pk. rewrite H1. destruct (N.eqb_spec p pk); [contradiction|reflexivity]. Qed.
+Lemma put_att0_clash k v d w : lookup k (vals d) = Some w -> (v_src w <> v_src v \/ v_tgt w <> v_tgt v) ->
+  exists er, put_att0 k v d = (d, Some er).
+Proof.
+  intros H1 H2. unfold put_att0. rewrite H1. destruct (N.eqb_spec (v_src w) (v_src v)); simpl; [|eexists; reflexivity].
+  destruct (N.eqb_spec (v_tgt w) (v_tgt v)); simpl; [tauto|eexists; reflexivity].
+Qed.
+
+Lemma store_cons_no_conflict cs : forall d d', store_cons cs d = (d', None) ->
+  forall slot sub broot cid w, In (slot, sub, broot, cid) cs -> lookup (K KCon slot sub broot) (vals d) = Some w -> v_root w = cid.
+Proof.
+  induction cs as [|[[[s0 b0] r0] c0] cs IH]; intros d d' H slot sub broot cid w Hin Hl; [contradiction|].
+  simpl in H. apply bind_inv in H. destruct H as [[e [_ H]]|[d1 [H1 H2]]]; [discriminate|].
+  destruct (N.eqb_spec (v_root w) cid) as [|Hne]; [assumption|exfalso].
+  destruct Hin as [E|Hin].
+  - injection E as -> -> -> ->. rewrite (put_root_clash EClashCon _ (V cid cid 0 0) _ _ Hl) in H1; [discriminate|exact Hne].
+  - apply put_root_spec in H1. destruct H1 as [X _].
+    apply Hne. eapply (IH _ _ H2); [exact Hin|]. eapply x_mono; eassumption.
+Qed.
+
+Lemma success_no_conflict t e d d' : store_entry false t e d = (d', None) -> ~ conflicts t e d.
+Proof.
+  destruct t, e; simpl; try tauto.
+  - (* att *)
+    intros H C. unfold store_att in H.
+    apply bind_inv in H. destruct H as [[er [_ H]]|[d3 [H H4]]]; [discriminate|].
+    apply bind_inv in H. destruct H as [[er [_ H]]|[d2 [H H3]]]; [discriminate|].
+    apply bind_inv in H. destruct H as [[er [_ H]]|[d1 [H H2]]]; [discriminate|].
+    pose proof (put_pk_spec _ _ _ _ _ _ H) as [X1 _].
+    pose proof (put_root_spec _ _ _ _ _ _ H2) as [X2 _].
+    pose proof (put_pk_spec _ _ _ _ _ _ H3) as [X3 _].
+    destruct C as [[p [C1 C2]]|[[w [C1 C2]]|[[p [C1 C2]]|[w [C1 C2]]]]].
+    + rewrite (put_pk_clash _ _ _ _ _ C1 C2) in H. discriminate.
+    + apply (x_mono _ _ _ _ _ X1) in C1.
+      rewrite (put_root_clash EClashAtt _ (V cid cid src tgt) _ _ C1) in H2; [discriminate|exact C2].
+    + apply (x_pmono _ _ _ _ _ X1) in C1. apply (x_pmono _ _ _ _ _ X2) in C1.
+      rewrite (put_pk_clash _ _ _ _ _ C1 C2) in H3. discriminate.
+    + apply (x_mono _ _ _ _ _ X1) in C1. apply (x_mono _ _ _ _ _ X2) in C1. apply (x_mono _ _ _ _ _ X3) in C1.
+      destruct (put_att0_clash _ (V cid cid src tgt) _ _ C1 C2) as [er E]. rewrite E in H4. discriminate.
+  - intros H [w [C1 C2]]. rewrite (put_root_clash EClashPro _ (V cid root 0 0) _ _ C1) in H; [discriminate|exact C2].
+  - intros H [slot [sub [broot [cid [w [C0 [C1 C2]]]]]]]. apply C2. eapply store_cons_no_conflict; eassumption.
+Qed.
+
+Lemma store_entries_no_conflict t vis : forall d d', store_entries false t vis d = Some (d', None) ->
+  forall e, In e vis -> ~ conflicts t e d.
+Proof.
+  induction vis as [|e0 vis IH]; intros d d' H e Hin; [contradiction|]. simpl in H.
+  destruct (store_entry false t e0 d) as [d1 [er|]] eqn:E; [destruct vis; discriminate|].
+  destruct Hin as [<-|Hin].
+  - eapply success_no_conflict. exact E.
+  - intro C. apply store_entry_spec in E. destruct E as [X _].
+    eapply (IH _ _ H _ Hin). eapply conflicts_mono; eassumption.
+Qed.
+
+(* a set containing a datum that conflicts with what is stored is rejected with an error ... *)
+Theorem clash_is_error s t sl vis unv res s' :
+  step s (LStore (t, sl) Scheduled vis unv res) = Some s' ->
+  forall e, In e vis -> conflicts t e (st_db s) -> exists er, res = Some er /\ resolved_res res = false.
+Proof.
+  cbv beta iota delta [step step_gen]. intros H e He C.
+  destruct (kind_of_dt t) as [kd|] eqn:Ek.
+  - destruct (dtype_eqb t DPro && Nat.ltb 1 (length (vis ++ unv))).
+    + destruct (res_eqb res (Some ELen) && nil_entries vis) eqn:E; [|discriminate].
+      apply andb_true_iff in E. destruct E as [E _]. apply res_eqb_eq in E. subst res. exists ELen. split; reflexivity.
+    + destruct (store_entries false t vis (st_db s)) as [[d' [er|]]|] eqn:ES; [| |discriminate].
+      * destruct (res_eqb res (Some er)) eqn:E; [|discriminate]. apply res_eqb_eq in E. subst res.
+        destruct (store_entries_spec _ _ _ _ _ ES) as [_ [_ He']].
+        exists er. split; [reflexivity|]. apply entry_err_not_resolved. apply He'. reflexivity.
+      * exfalso. eapply store_entries_no_conflict; eassumption.
+  - destruct (res_eqb res _ && nil_entries vis) eqn:E; [|discriminate].
+    apply andb_true_iff in E. destruct E as [_ E]. apply nil_entries_nil in E. subst vis. contradiction.
+Qed.
+
+(* ... and a Store that returns such an error wakes nobody, consumes no expiry, and changes the maps
+   only by ADDING keys that were absent, with data of the visited entries (partial effects) *)
+Theorem error_only_adds s t sl vis unv res s' :
+  step s (LStore (t, sl) Scheduled vis unv res) = Some s' -> resolved_res res = false ->
+  pend s' = pend s /\ outbox s' = outbox s /\ expq s' = expq s /\
+  ext (flat_map (offers_v t) vis) (flat_map (offers_pk t) vis) (flat_map (offers_b t) vis) (st_db s) (st_db s').
+Proof.
+  cbv beta iota delta [step step_gen]. intros H Hr.
+  assert (Same : Some s = Some s' -> pend s' = pend s /\ outbox s' = outbox s /\ expq s' = expq s /\
+     ext (flat_map (offers_v t) vis) (flat_map (offers_pk t) vis) (flat_map (offers_b t) vis) (st_db s) (st_db s')).
+  { intro E. injection E as <-. repeat split; try reflexivity; auto. }
+  destruct (kind_of_dt t) as [kd|] eqn:Ek.
+  - destruct (dtype_eqb t DPro && Nat.ltb 1 (length (vis ++ unv))).
+    + destruct (res_eqb res (Some ELen) && nil_entries vis); [apply Same; exact H|discriminate].
+    + destruct (store_entries false t vis (st_db s)) as [[d' [er|]]|] eqn:ES; [| |discriminate].
+      * destruct (res_eqb res (Some er)); [|discriminate]. injection H as <-. simpl.
+        destruct (store_entries_spec _ _ _ _ _ ES) as [X _]. auto.
+      * destruct (nil_entries unv); [|discriminate]. cbv zeta in H.
+        destruct (drain _ _) as [[d2 q2] er] eqn:ED. destruct (res_eqb res er) eqn:E; [|discriminate].
+        apply res_eqb_eq in E. subst res. destruct (drain_spec _ _ _ _ _ ED) as [_ [_ [_ [_ [_ [De _]]]]]].
+        destruct er as [e|]; [|discriminate]. destruct (De _ eq_refl) as [-> | ->]; discriminate.
+  - destruct (res_eqb res _ && nil_entries vis); [apply Same; exact H|discriminate].
+Qed.
+
+(* no Store, successful or not, ever replaces the value stored under a key (it may delete it on expiry) *)
+Theorem store_never_replaces s d st vis unv res s' :
+  step s (LStore d st vis unv res) = Some s' ->
+  forall k v v', lookup k (vals (st_db s)) = Some v -> lookup k (vals (st_db s')) = Some v' -> v' = v.
+Proof.
+  destruct d as [t sl]. cbv beta iota delta [step step_gen]. intros H k v v' H1 H2.
+  assert (Same : Some s = Some s' -> v' = v) by (intro E; injection E as <-; congruence).
+  destruct st; try (destruct (res_eqb res (Some ERefused) && nil_entries vis); [apply Same; exact H|discriminate]).
+  destruct (kind_of_dt t) as [kd|] eqn:Ek.
+  - destruct (dtype_eqb t DPro && Nat.ltb 1 (length (vis ++ unv))).
+    + destruct (res_eqb res (Some ELen) && nil_entries vis); [apply Same; exact H|discriminate].
+    + destruct (store_entries false t vis (st_db s)) as [[d' [er|]]|] eqn:ES; [| |discriminate];
+        destruct (store_entries_spec _ _ _ _ _ ES) as [X _]; apply (x_mono _ _ _ _ _ X) in H1.
+      * destruct (res_eqb res (Some er)); [|discriminate]. injection H as <-. simpl in H2. congruence.
+      * destruct (nil_entries unv); [|discriminate]. cbv zeta in H.
+        destruct (drain _ _) as [[d2 q2] er] eqn:ED. destruct (res_eqb res er); [|discriminate].
+        injection H as <-. simpl in H2. destruct (drain_spec _ _ _ _ _ ED) as [D1 _].
+        apply D1 in H2. unfold do_resolve in H2. simpl in H2.
+        destruct (resolve kd (vals d') (pend s)). simpl in H2. congruence.
+  - destruct (res_eqb res _ && nil_entries vis); [apply Same; exact H|discriminate].
+Qed.
+
+(* ---------- non-vacuity and counterexamples (closed computations) ---------- *)
+(* a disciplined history with a clash, a partial failure, three readers blocked and then woken, a
+   cancellation, an expiry and a refused late store: accepted by the model, passes the monitor *)
+Definition demo_trace : list label := [
+  LAwaitReg 1 (K KAtt 5 1 0); LQuiet; LAwaitReg 2 (K KAtt 5 1 0); LQuiet; LAwaitReg 3 (K KAtt 5 0 0); LQuiet;
+  LAwaitReg 4 (K KAtt 5 2 0); LQuiet;
+  LStore (DAtt, 5) Scheduled [EAtt 1 5 5 1 1 10 7 8] [] None;
+  LAnswer 1 (K KAtt 5 1 0) 10; LAnswer 2 (K KAtt 5 1 0) 10; LAnswer 3 (K KAtt 5 0 0) 10; LQuiet;
+  LStore (DAtt, 5) Scheduled [EAtt 2 5 5 2 2 11 7 8; EAtt 1 5 5 1 1 12 7 8] [] (Some EClashAtt); LQuiet;
+  LPubKey 5 2 2 (Some 2);
+  LAwaitReg 5 (K KAtt 5 0 0); LAnswer 4 (K KAtt 5 2 0) 11; LAnswer 5 (K KAtt 5 0 0) 10; LQuiet;
+  LAwaitReg 6 (K KPro 5 0 0); LQuiet; LCancel 6; LQuiet;
+  LExpire (DAtt, 5); LQuiet;
+  LStore (DPro, 6) Scheduled [EPro 6 1 20] [] None; LQuiet;
+  LStore (DAtt, 5) Expired [] [EAtt 1 5 5 1 1 13 7 8] (Some ERefused); LQuiet;
+  LPubKey 5 2 2 None;
+  LAwaitReg 7 (K KAtt 5 1 0); LQuiet ].
+
+Lemma demo_accepted : (exists s, run init demo_trace = Some s) /\ monitor demo_trace = true /\ disciplined demo_trace = true.
+Proof. split; [eexists; vm_compute; reflexivity|split; vm_compute; reflexivity]. Qed.
+
+(* F2: before the repair an aggregate with the same key (same data root) but other aggregation
+   bits replaced the stored one; two readers of the same key got different data *)
+Definition f2_trace : list label := [
+  LStore (DAgg, 2) Scheduled [EAgg 2 1 1 2] [] None; LQuiet;
+  LAwaitReg 1 (K KAgg 2 1 1); LAnswer 1 (K KAgg 2 1 1) 2; LQuiet;
+  LStore (DAgg, 2) Scheduled [EAgg 2 1 1 3] [] None; LQuiet;
+  LAwaitReg 2 (K KAgg 2 1 1); LAnswer 2 (K KAgg 2 1 1) 3; LQuiet ].
+
+Lemma answers_unique_agg_refuted_before_fix :
+  (exists s, run_gen true init f2_trace = Some s) /\ disciplined f2_trace = true /\ monitor f2_trace = false
+  /\ run init f2_trace = None.
+Proof. split; [eexists; vm_compute; reflexivity|repeat split; vm_compute; reflexivity]. Qed.
+
+(* Uniqueness across an expiry rests on the deadliner (C16) and the caller: if a duty that was
+   emitted on C() is Scheduled again, other data is accepted and served for the same key. *)
+Definition undisciplined_trace : list label := [
+  LStore (DPro, 3) Scheduled [EPro 3 1 10] [] None; LQuiet;
+  LAwaitReg 1 (K KPro 3 0 0); LAnswer 1 (K KPro 3 0 0) 10; LQuiet;
+  LExpire (DPro, 3); LQuiet;
+  LStore (DPro, 4) Scheduled [] [] None; LQuiet;
+  LStore (DPro, 3) Scheduled [EPro 3 2 11] [] None; LQuiet;
+  LAwaitReg 2 (K KPro 3 0 0); LAnswer 2 (K KPro 3 0 0) 11; LQuiet ].
+
+Lemma answers_unique_needs_discipline :
+  (exists s, run init undisciplined_trace = Some s) /\ disciplined undisciplined_trace = false.
+Proof. split; [eexists; vm_compute; reflexivity|vm_compute; reflexivity]. Qed.
+
+(* ---------- what "disciplined" says, in words ---------- *)
+Definition Disciplined (ls : list label) : Prop :=
+  forall pre d vis unv res post, ls = pre ++ LStore d Scheduled vis unv res :: post ->
+    ~ In (LExpire d) pre /\ forall e, In e vis -> entry_slots_ok (snd d) e = true.
+
+Lemma dead_spec ls : forall g d, In d (g_dead (ghost_after g ls)) <-> In d (g_dead g) \/ In (LExpire d) ls.
+Proof.
+  induction ls as [|l r IH]; intros g d; simpl; [tauto|]. rewrite IH.
+  destruct l as [d0 st vis unv res|q k|q k c|q|d0|slot comm vidx r0|]; simpl;
+    try (split; [intros [H|H]; [left; exact H|right; right; exact H] | intros [H|[H|H]]; [left; exact H|discriminate H|right; exact H]]).
+  - assert (E : g_dead (gstep g (LStore d0 st vis unv res)) = g_dead g).
+    { simpl. destruct st; try reflexivity. destruct (kind_of_dt (fst d0)); [destruct (resolved_res res)|]; reflexivity. }
+    simpl in E. rewrite E. split; [intros [H|H]; [left; exact H|right; right; exact H] | intros [H|[H|H]]; [left; exact H|discriminate H|right; exact H]].
+  - split.
+    + intros [[H|H]|H]; [right; left; congruence|left; exact H|right; right; exact H].
+    + intros [H|[H|H]]; [left; right; exact H|left; left; congruence|right; exact H].
+Qed.
+
+Lemma disciplined_snoc ls l :
+  disciplined (ls ++ [l]) =
+  disciplined ls && match l with
+                    | LStore d Scheduled vis _ _ => negb (in_duties d (g_dead (ghost_after ginit ls))) && forallb (entry_slots_ok (snd d)) vis
+                    | _ => true
+                    end.
+Proof.
+  unfold disciplined. rewrite ghost_after_app. simpl.
+  destruct l as [d st vis unv res|q k|q k c|q|d|slot comm vidx r|]; simpl; try (rewrite andb_true_r; reflexivity).
+  destruct st; try (rewrite andb_true_r; reflexivity).
+  destruct (kind_of_dt (fst d)); [destruct (resolved_res res)|]; reflexivity.
+Qed.
+
+Lemma snoc_split {A} (a : list A) x b y c :
+  a ++ [x] = b ++ y :: c -> (c = [] /\ a = b /\ x = y) \/ (exists c', c = c' ++ [x] /\ a = b ++ y :: c').
+Proof.
+  intro H. destruct c as [|z c] using rev_ind.
+  - left. apply app_inj_tail in H. destruct H as [-> ->]. auto.
+  - right. clear IHc. exists c. replace (b ++ y :: c ++ [z]) with ((b ++ y :: c) ++ [z]) in H by (rewrite <- app_assoc; reflexivity).
+    apply app_inj_tail in H. destruct H as [-> ->]. auto.
+Qed.
+
+Theorem disciplined_spec ls : disciplined ls = true <-> Disciplined ls.
+Proof.
+  induction ls as [|l ls IH] using rev_ind.
+  - split; [|reflexivity]. intros _ pre d vis unv res post E. destruct pre; discriminate.
+  - rewrite disciplined_snoc, andb_true_iff, IH. split.
+    + intros [H1 H2] pre d vis unv res post E. apply snoc_split in E. destruct E as [[-> [-> ->]]|[c' [-> ->]]].
+      * apply andb_true_iff in H2. destruct H2 as [H2 H3]. split.
+        -- intro Hin. assert (In d (g_dead (ghost_after ginit pre))) by (apply dead_spec; right; exact Hin).
+           apply in_duties_In in H. rewrite H in H2. discriminate.
+        -- intros e He. rewrite forallb_forall in H3. apply H3. exact He.
+      * eapply H1. reflexivity.
+    + intro H. split.
+      * intros pre d vis unv res post E. apply (H pre d vis unv res (post ++ [l])). rewrite E, <- app_assoc. reflexivity.
+      * destruct l as [d st vis unv res|q k|q k c|q|d|slot comm vidx r|]; try reflexivity. destruct st; try reflexivity.
+        destruct (H ls d vis unv res [] eq_refl) as [H1 H2]. apply andb_true_iff. split.
+        -- destruct (in_duties d (g_dead (ghost_after ginit ls))) eqn:E; [|reflexivity].
+           apply in_duties_In in E. apply dead_spec in E. destruct E as [[]|E]. contradiction.
+        -- apply forallb_forall. exact H2.
+Qed.
